@@ -1,7 +1,7 @@
 """C07 - every API call returns a structured error instead of panicking. DESIGN.md section 3 / C07."""
 import json
 import vlib
-from checks import semcommon
+from checks import semcommon, jsongraph
 
 PROP = "C07"
 KF_ID = "C07-recursion-error-bare"
@@ -54,6 +54,19 @@ def run(tier, argv):
             rep.known(KF_ID, KF_TEXT)
             continue
         bad.append({"what": m["what"], "op": e["op"], "input": e["input"], "kind": e["kind"], "pos": e["pos"], "srclen": e["srclen"], "file": e.get("file"), "msg": e.get("msg", "")[:300]})
+    # transition cover of the schema notation's reference automaton (SchemaText): every string of the W-method suite through the schema
+    # scanner, every access string + byte through Check / Len / GetAST / Example / UsedUserTypes; only panics, foreign errors and
+    # positions outside the text are reported here (also where the reference has no verdict)
+    gpath, g = jsongraph.export_schema_graph(work, 1, 1, rep, "r")
+    rout = work.path("robust.ndjson")
+    p = vlib.run_harness(hbin, ["c05graph", "-graph", gpath, "-out", rout, "-sut", "schema", "-robust"], timeout=6000)
+    if p.returncode != 0:
+        raise vlib.Infra("c05graph -robust failed: " + p.stderr.decode()[-2000:])
+    rs = semcommon.summary_of(p.stderr)
+    rep.notes["schema_cover"] = {k: rs[k] for k in ("states", "transitions", "tests", "mismatches")}
+    for m in vlib.read_ndjson(rout):
+        bad.append({"what": m["what"], "op": "schema scanner" if m["what"] == "robust" else "schema." + m["want"], "input": bytes(m["bytes"]).decode("latin-1"), "kind": m["got"].get("kind"),
+                    "pos": m["got"].get("pos"), "srclen": len(m["bytes"]), "file": "s", "msg": (m["got"].get("msg") or m["got"].get("panic") or "")[:300]})
     ops = {}
     for e in lines:
         k = e["op"] + ":" + e["kind"]
@@ -61,7 +74,7 @@ def run(tier, argv):
     rep.notes["outcomes"] = ops
     for e in lines[:: max(1, len(lines) // 6)]:
         rep.sample({"op": e["op"], "input": e["input"][:60], "kind": e["kind"], "code": e["code"], "pos": e["pos"]})
-    rep.cov["evaluations"] = len(lines)
+    rep.cov["evaluations"] = len(lines) + rs["tests"]
     rep.cov["distinct_nontrivial"] = s["inputs"]
     rep.cov["traces_validated_against_impl"] = len(lines)
     rep.cov["rule"] = ("%d distinct byte strings (prefixes of the repository's testdata files, fixed cut-off witnesses, byte-level mutations of generated schemas) x 26 public "
